@@ -19,6 +19,9 @@ def main():
     done = set()
     for f in sorted((V / "lib" / "props").glob("c*.py")):
         m = importlib.import_module(f"props.{f.stem}")
+        if not getattr(m, "CLAIMED", True):
+            NOT_APPLICABLE[m.ID] = m.NOT_CLAIMED_REASON
+            continue
         man = m.MANIFEST
         done.add(m.ID)
         checks.append({
